@@ -286,7 +286,8 @@ class BaseBackend(CodeGen):
         self._helper_funcs = []
 
         # definition of extrinsic function _imports
-        self._imports = ["from numpy import pi, sqrt"]
+        # `E` (Euler's number) is a constant of the equation language just like `pi`: sympy prints it as `E`
+        self._imports = ["from numpy import pi, sqrt", "from numpy import e as E"]
         if imports:
             for imp in imports:
                 self.add_import(imp)
